@@ -129,7 +129,7 @@ fn process(line: &Value, dom: &[String], tb: &Tables, st: &mut Stats, out: &mut 
     let mut report = |kind: &str, detail: Value, st: &mut Stats| {
         let _ = st;
         reports.push(
-            json!({"kind": kind, "c": c, "l": line["l"], "cs": line["cs"], "mc": mc, "u": u, "detail": detail})
+            json!({"kind": kind, "c": c, "l": line["l"], "cs": line["cs"], "nt": line["nt"], "mc": mc, "u": u, "detail": detail})
                 .to_string(),
         );
     };
